@@ -257,11 +257,14 @@ Conjugate_gradient_on_the_normal_equations>`_.
     s = p.copy()
     q = op.range.element()
     sqnorm_s_old = s.norm() ** 2  # Only recalculate norm after update
+    # The normal-equation residual cannot be reduced below rounding level;
+    # iterating on from there divides rounding noise and diverges
+    sqnorm_s_min = (1e3 * np.finfo(float).eps) ** 2 * sqnorm_s_old
 
     for _ in range(niter):
         op(p, out=q)                       # q = A p
         sqnorm_q = q.norm() ** 2
-        if sqnorm_q == 0.0 or sqnorm_s_old == 0.0:
+        if sqnorm_q == 0.0 or sqnorm_s_old <= sqnorm_s_min:
             # Return if the residual or the normal-equation residual is 0
             # (the latter also by underflow when iterating past convergence)
             return
